@@ -788,6 +788,24 @@ class World:
                     self.vio('listed-site-not-rewritten', {'j': j, 'k': k, 'site': str(cursor_pos(cur))[:120], 'expr': _fmt(cur.resolve()),
                                                            'result': g.format()[:400]}, strategy=name, where_kind=wk)
                     break
+        # "aiming at nothing rewrites all k", for the loop rewrites: the same program as aiming at the
+        # listed sites one at a time, last listed first (a site listed later never precedes an earlier one,
+        # so the earlier indices stay valid; what a rewrite emits comes after them)
+        if wk == 'none' and name in LOOP and 2 <= k <= 4:
+            try:
+                h = f
+                for j in range(k - 1, -1, -1):
+                    h = strategy_call(name, h, j, params, None)
+            except Exception:
+                self.stats.count('undecided', 'one-at-a-time-composition-declined')
+            else:
+                self.stats.count('ops', 'apply:none-versus-one-at-a-time')
+                # (compared with every invented name erased: the one-at-a-time program copies the names an
+                # earlier step invented into both copies of a body, the all-at-once program invents new ones)
+                known = set(_IDENT.findall(f.format()))
+                if _erase(h.format(), known) != _erase(g.format(), known):
+                    self.vio('all-sites-differs-from-one-at-a-time', {'k': k, 'diff': _text_diff(_erase(g.format(), known), _erase(h.format(), known))},
+                             strategy=name, where_kind=wk)
         # a rule object reused across applications answers as a freshly made one does
         if name in RULES:
             try:
@@ -1127,6 +1145,14 @@ def _fp_contains(big, small) -> bool:
         if isinstance(x, tuple):
             stack.extend(x)
     return False
+
+
+def _erase(text: str, known: set) -> str:
+    """The text with every identifier the source program does not have replaced by `$`."""
+    # (a name ending in digits is erased too: an invented name may coincide with one that an earlier step
+    # invented and that the source program therefore "has")
+    return _IDENT.sub(lambda m: m.group(0) if ((m.group(0) in known and not m.group(0)[-1].isdigit()) or m.group(0) in _NOT_NAMES)
+                      else '$', text)
 
 
 def _text_diff(a: str, b: str) -> list:
